@@ -196,7 +196,8 @@ Lemma tests_of_decls_spec : forall path fx ds t,
   In t (tests_of_decls path fx ds) <->
   exists f, In (DFun f) ds /\ is_fixture f = false /\ prefixb s_test_ (f_name f) = true /\
             t = {| t_path := path; t_name := f_name f; t_markers := extract_markers (f_decs f);
-                   t_fixtures := filter (fun p => mem_str p fx) (f_params f) |}.
+                   t_fixtures := filter (fun p => mem_str p fx) (f_params f);
+                   t_params := f_params f; t_async := f_async f |}.
 Proof.
   intros path fx ds t. induction ds as [|d r IH]; cbn [tests_of_decls].
   - split; [intros [] | intros [f [[] _]]].
@@ -480,30 +481,30 @@ Qed.
 (* ------------------------------------------------------------------------------------------ *)
 (* harness truth *)
 
-Lemma raw_of_harness_true : forall compiles body_ok t,
-  raw_of_harness true compiles body_ok t = raw_truth compiles body_ok t.
-Proof. intros. unfold raw_of_harness, raw_truth. cbn [negb orb]. reflexivity. Qed.
+Lemma raw_of_harness_runs : forall runs_body compiles body_ok t, runs_body t = true ->
+  raw_of_harness runs_body compiles body_ok t = raw_truth compiles body_ok t.
+Proof. intros rb compiles body_ok t H. unfold raw_of_harness, raw_truth. rewrite H. cbn [negb orb]. reflexivity. Qed.
 
 Lemma raw_complement : forall rb compiles body_ok t,
-  ~ Known_C16_body_never_run rb compiles body_ok t ->
+  ~ Known_C16_body_not_executed rb compiles body_ok t ->
   raw_of_harness rb compiles body_ok t = raw_truth compiles body_ok t.
 Proof.
-  intros rb compiles body_ok t H. unfold raw_of_harness, raw_truth, Known_C16_body_never_run in *.
-  destruct rb; cbn [negb orb]; [reflexivity|].
+  intros rb compiles body_ok t H. unfold raw_of_harness, raw_truth, Known_C16_body_not_executed in *.
+  destruct (rb t) eqn:Er; cbn [negb orb]; [reflexivity|].
   destruct (compiles t) eqn:Ec; cbn [andb]; [|reflexivity].
   destruct (body_ok t) eqn:Eb; [reflexivity|]. exfalso. apply H. repeat split; assumption.
 Qed.
 
-Lemma known_body_never_runb_spec : forall rb compiles body_ok t,
-  known_body_never_runb rb compiles body_ok t = true <-> Known_C16_body_never_run rb compiles body_ok t.
+Lemma known_body_not_executedb_spec : forall rb compiles body_ok t,
+  known_body_not_executedb rb compiles body_ok t = true <-> Known_C16_body_not_executed rb compiles body_ok t.
 Proof.
-  intros. unfold known_body_never_runb, Known_C16_body_never_run.
+  intros. unfold known_body_not_executedb, Known_C16_body_not_executed.
   rewrite !andb_true_iff, !negb_true_iff. tauto.
 Qed.
 
 (* every member of the class that is not skipped IS misreported (the class is not too wide) *)
 Lemma known_class_misreported : forall rb compiles body_ok t,
-  Known_C16_body_never_run rb compiles body_ok t -> find_skip (t_markers t) = None ->
+  Known_C16_body_not_executed rb compiles body_ok t -> find_skip (t_markers t) = None ->
   verdict (t_markers t) (raw_of_harness rb compiles body_ok t) <>
   verdict (t_markers t) (raw_truth compiles body_ok t) /\
   is_bad (verdict (t_markers t) (raw_of_harness rb compiles body_ok t)) =
@@ -511,6 +512,13 @@ Lemma known_class_misreported : forall rb compiles body_ok t,
 Proof.
   intros rb compiles body_ok t [H1 [H2 H3]] Hs. unfold raw_of_harness, raw_truth, verdict.
   rewrite H1, H2, H3, Hs. cbn. destruct (find_xfail (t_markers t)); split; try discriminate; reflexivity.
+Qed.
+
+Lemma harness_runs_body_spec : forall t,
+  harness_runs_body t = true <-> t_params t = [] /\ t_async t = false.
+Proof.
+  intro t. unfold harness_runs_body. destruct (t_params t); [|split; [discriminate | intros [H _]; discriminate]].
+  rewrite negb_true_iff. split; [intro H; split; [reflexivity | exact H] | intros [_ H]; exact H].
 Qed.
 
 (* ------------------------------------------------------------------------------------------ *)
